@@ -233,6 +233,7 @@ impl<'buf, 'fds> Unmarshal<'buf, 'fds> for Variant<'buf, 'fds> {
     fn unmarshal(
         ctx: &mut crate::wire::unmarshal_context::UnmarshalContext<'fds, 'buf>,
     ) -> crate::wire::unmarshal::UnmarshalResult<Self> {
-        crate::wire::unmarshal::container::unmarshal_variant(ctx)
+        // the variant is a container level of its own, like in `unmarshal_container`
+        ctx.in_container(1, crate::wire::unmarshal::container::unmarshal_variant)
     }
 }
